@@ -85,6 +85,7 @@ fn main() {
         "factory_drain" => worker::factory_drain(&args),
         "factory_queuer" => worker::factory_queuer(&args),
         "factory_stale" => worker::factory_stale(&args),
+        "factory_stop" => worker::factory_stop(&args),
         "outport" => outport::run(&args),
         "pg" => pg::run(&args),
         "pg_race" => pg::race(&args),
